@@ -86,9 +86,12 @@ class ContractDB:
                         kw = {k.arg: ast.literal_eval(k.value) for k in dec.keywords}
                         self.invariants[(q, kw.get('loop', 1))] = Invariant(q, kw.get('loop', 1), node, path)
 
-    def cases_of(self, c):
-        """list of case dicts from the decorator option cases={'param': [values...]} (cartesian product)"""
+    def cases_of(self, c, tier='thorough'):
+        """list of case dicts from the decorator option cases={'param': [values...]} (cartesian product);
+        quick_cases=[{...}, ...] optionally selects the combinations verified in the quick tier"""
         import itertools
+        if tier == 'quick' and c.options.get('quick_cases'):
+            return [dict(d) for d in c.options['quick_cases']]
         cs = c.options.get('cases')
         if not cs:
             return [{}]
